@@ -13,7 +13,7 @@ def run(ctx) -> Report:
     if not ctx.replay:
         G.run_mc(rep, ctx, "C06")
     n = 1 if ctx.quick else 10
-    G.conformance(rep, ctx, "C06", {"basic": 180 * n, "churn": 140 * n, "faults": 220 * n, "subs": 60 * n, "syncfault": 100 * n, "live": 40 * n})
+    G.conformance(rep, ctx, "C06", {"basic": 180 * n, "churn": 140 * n, "faults": 220 * n, "subs": 60 * n, "syncfault": 100 * n, "live": 40 * n, "grow": 160 * n})
     rep.extra.update(
         bounds="as C04; 1-3 configured assignors in any order per member, JoinGroup v0/v1/v2/v5 brokers (MEMBER_ID_REQUIRED on v5), "
                "every coordinator error code of the per-API table at any JoinGroup/SyncGroup/Heartbeat/OffsetCommit/FindCoordinator reply, "
